@@ -347,7 +347,14 @@ def build_world(ctx):
 
 
 def tmp(w, tag="f"):
+    """a file name for the next database; every third one is a name used before (the earlier file is gone):
+    what an open does is decided by the file found there now, not by what this process saw under that name"""
     w.counter += 1
+    if w.counter % 3 == 0:
+        for k in range(64):
+            p = w.dir / f"{tag}_again{k}.sqlite"
+            if not p.exists():  # free again: whoever used it has removed it
+                return p
     return w.dir / f"{tag}{w.counter}.sqlite"
 
 
